@@ -265,8 +265,25 @@ def gen(rng, idx, tier):
         opts["removeOverlaps"] = False
     if func == "compileTTF" and rng.random() < 0.3:
         opts["flattenComponents"] = True
+    opts_objects = None
+    if rng.random() < 0.3:
+        # writer / filter INSTANCES shared by every call of one interpreter
+        opts_objects = {}
+        if rng.random() < 0.7:
+            wl = [{"class": "KernFeatureWriter", "options": rng.choice([{}, {"ignoreMarks": False}])},
+                  {"class": "MarkFeatureWriter", "options": rng.choice([{}, {"quantization": 10}])},
+                  {"class": "GdefFeatureWriter"}, {"class": "CursFeatureWriter"}]
+            opts_objects["featureWriters"] = wl[:rng.randint(2, 4)]
+        if kind == "outline" and rng.random() < 0.7:
+            opts_objects["filters"] = rng.sample([
+                {"class": "DecomposeTransformedComponentsFilter", "options": {"pre": True}},
+                {"class": "TransformationsFilter", "options": {"OffsetX": 10, "pre": True}},
+                {"class": "ReverseContourDirectionFilter", "options": {}},
+                {"class": "FlattenComponentsFilter", "options": {"pre": True}}], rng.randint(1, 2))
+        if not opts_objects:
+            opts_objects = None
     return {"kind": kind, "ufo": ufo, "func": func, "opts": opts, "per_lib": partial,
-            "epoch": rng.choice([None, None, 0, 0, 86400]),
+            "epoch": rng.choice([None, None, 0, 0, 86400]), "opts_objects": opts_objects,
             "other_func": "compileOTF" if func == "compileTTF" else "compileTTF", "tier": tier}
 
 
@@ -354,6 +371,8 @@ def run(case):
         bump("cases_compared")
     if case.get("per_lib"):
         bump("cases_partial_glyph_order")
+    if case.get("opts_objects"):
+        bump("cases_with_writer_or_filter_instances_shared_by_all_calls")
     if case.get("case_pairs"):
         bump("cases_unlisted_glyph_names_differing_in_case_only")
     if case.get("epoch") == 0:
